@@ -12,45 +12,69 @@ Theorem C07_once : forall s, reachable s -> ik_once (persisted s).
 Proof. exact e2_ik_once. Qed.
 Print Assumptions C07_once.
 
-(* "every success carrying key k answers the outcome of that single entry".  The full statement is FALSE of the model
-   (and of the code, known finding "idempotency key stored by another kind of write"): SaveMetadata / DeleteMetadata
-   that find an entry under their key do not look at it -- when it was stored by a transaction they write nothing and
-   still report success, with no transaction id.  Following the convention of this development the full statement is
-   kept visible, refuted by a witness, proved for retries of the same kind of write (no hypothesis on the state), and
-   proved as stated under the executable hypothesis [ik_kind_consistent_b] that excludes exactly that class. *)
-Definition C07_same_outcome_statement : Prop := forall s, reachable s -> ik_same_outcome s.
+(* "every success carrying key k answers the outcome of that single entry": the full statement of Spec.v, in every
+   reachable state, with no hypothesis.  (Before the repair of executionContext.run -- a key reused with a different
+   request is refused with ErrIdempotencyKeyReused -- this was FALSE of the model and of the code: SaveMetadata /
+   DeleteMetadata that found an entry of another kind under their key reported success without a transaction id;
+   the statement was then proved only under the hypothesis [ik_kind_consistent_b], which is gone.) *)
+Theorem C07_same_outcome : forall s, reachable s -> ik_same_outcome s.
+Proof. exact e2_ik_same_outcome. Qed.
+Print Assumptions C07_same_outcome.
 
-Theorem C07_same_outcome_refuted : ~ C07_same_outcome_statement.
-Proof. intros S. destruct e2_ik_same_outcome_refuted as [s [Hr Hn]]. exact (Hn (S s Hr)). Qed.
-Print Assumptions C07_same_outcome_refuted.
+(* a success under a key is answered by an entry on disk that IS the outcome of this request in the sense of the
+   code's comparison ([is_outcome_of]: same kind; revert: same reverted transaction; metadata write: same target and
+   content) -- whether the request wrote the entry itself or replayed it *)
+Theorem C07_replay_is_own_outcome : forall s, reachable s ->
+  forall t th x, get_thread (threads s) t = Some th -> t_resp th = Some (ROk x) -> rq_dry (t_req th) = false ->
+    rq_ik (t_req th) <> 0%N ->
+    exists e, In e (persisted s) /\ e_ik e = rq_ik (t_req th) /\ e_txid e = x /\ is_outcome_of (t_req th) e = true.
+Proof. exact e2_replay_is_own_outcome. Qed.
+Print Assumptions C07_replay_is_own_outcome.
 
-(* the witness: a transaction committed with key 5, then a SaveMeta carrying key 5 answers [ROk None] *)
-Example C07_same_outcome_refuted_witness :
-  exists s e th, run init e2_c07_mixed = Some s /\ persisted s = [e] /\ get_thread (threads s) 2 = Some th /\
-    t_resp th = Some (ROk None) /\ rq_dry (t_req th) = false /\ rq_ik (t_req th) = 5%N /\
-    e_ik e = 5%N /\ e_txid e = Some 0 /\ e_kind e = KCreate /\ rq_kind (t_req th) = KSaveMeta.
-Proof. exact e2_c07_mixed_witness. Qed.
+(* both together (with C07_once): THE entry on disk under the key of a successful request carries the answered
+   transaction id and is the outcome of that request *)
+Theorem C07_key_entry_is_outcome : forall s, reachable s ->
+  forall t th x e, get_thread (threads s) t = Some th -> t_resp th = Some (ROk x) -> rq_dry (t_req th) = false ->
+    rq_ik (t_req th) <> 0%N -> In e (persisted s) -> e_ik e = rq_ik (t_req th) ->
+    e_txid e = x /\ is_outcome_of (t_req th) e = true.
+Proof. exact e2_ik_same_request. Qed.
+Print Assumptions C07_key_entry_is_outcome.
 
-(* retries of the same kind of write: every non-preview success of a request with key k <> 0 whose kind is the kind of
-   the persisted entry carrying k reports that entry's outcome.  Unconditional. *)
+(* the earlier unconditional form (retries of the same kind of write): now a corollary of C07_same_outcome, whose
+   hypothesis on the kinds is not needed any more; kept under its name *)
 Theorem C07_same_outcome_same_kind : forall s, reachable s ->
   forall t th x e, get_thread (threads s) t = Some th -> t_resp th = Some (ROk x) -> rq_dry (t_req th) = false ->
     rq_ik (t_req th) <> 0%N -> In e (persisted s) -> e_ik e = rq_ik (t_req th) ->
     same_kind (e_kind e) (rq_kind (t_req th)) = true -> e_txid e = x.
-Proof. exact e2_ik_same_outcome_same_kind. Qed.
+Proof. intros s Hr t th x e H1 H2 H3 H4 H5 H6 _. exact (C07_same_outcome s Hr t th x e H1 H2 H3 H4 H5 H6). Qed.
 Print Assumptions C07_same_outcome_same_kind.
 
-(* the statement as given, in every reachable state where no request shares its key with a persisted entry of another
-   kind of write *)
-Definition ik_kind_consistent_b (s : state) : bool :=
-  forallb (fun p => let rq := t_req (snd p) in
-                    N.eqb (rq_ik rq) 0 ||
-                    forallb (fun e => negb (N.eqb (e_ik e) (rq_ik rq)) || same_kind (e_kind e) (rq_kind rq)) (persisted s))
-          (threads s).
+(* the schedule that used to refute the statement: a transaction is committed with key 5 (request 1); a SaveMeta
+   carrying key 5 (request 2) finds the entry, which is not the outcome of a SaveMeta: it answers [RErr EKeyReused],
+   owns no entry, nothing is written (one entry on disk, nothing in flight), nothing is published for it, the key is
+   free again; a retry of the SAME create under key 5 (request 3) replays: every success carrying the key answers
+   the stored transaction id [Some 0] *)
+Example C07_key_reuse_refused :
+  exists s e th1 th2 th3, run init e2_c07_mixed_retry = Some s /\
+    persisted s = [e] /\ v_pending s = [] /\ v_batch s = None /\ v_iks s = [] /\
+    e_ik e = 5%N /\ e_txid e = Some 0 /\ e_kind e = KCreate /\ e_owner e = 1 /\
+    get_thread (threads s) 1 = Some th1 /\ get_thread (threads s) 2 = Some th2 /\ get_thread (threads s) 3 = Some th3 /\
+    rq_ik (t_req th1) = 5%N /\ rq_ik (t_req th2) = 5%N /\ rq_ik (t_req th3) = 5%N /\
+    rq_kind (t_req th2) = KSaveMeta /\ rq_dry (t_req th2) = false /\
+    t_resp th1 = Some (ROk (Some 0)) /\
+    t_resp th2 = Some (RErr EKeyReused) /\ t_entry th2 = None /\ t_pc th2 = PFinished /\
+    t_resp th3 = Some (ROk (Some 0)) /\ t_entry th3 = None /\
+    map ev_tid (published s) = [1; 3].
+Proof. exact e2_c07_key_reuse_refused. Qed.
 
-Theorem C07_same_outcome_partial : forall s, reachable s -> ik_kind_consistent_b s = true -> ik_same_outcome s.
-Proof. exact e2_ik_same_outcome_partial. Qed.
-Print Assumptions C07_same_outcome_partial.
+(* the state right after the refusal (the old witness schedule [e2_c07_mixed] itself): disk, in-flight lists and
+   published events are those before request 2 was sent; the key is free *)
+Example C07_key_reuse_refused_at :
+  exists s0 s e th2, run init (AStart 1 e2_pay_k5 :: e2_rs 1 10 ++ [APersistOk] ++ e2_rs 1 3) = Some s0 /\
+    run init e2_c07_mixed = Some s /\ persisted s0 = [e] /\ persisted s = [e] /\
+    v_pending s = [] /\ v_batch s = None /\ v_iks s = [] /\ published s = published s0 /\
+    get_thread (threads s) 2 = Some th2 /\ t_resp th2 = Some (RErr EKeyReused).
+Proof. exact e2_c07_key_reuse_refused_at. Qed.
 
 (* [ik_once] counts the key STORED ON the entries.  The stored key is the key of the request that produced the entry,
    for every kind of write (this is what the code before 28239f3 got wrong for metadata writes) ... *)
